@@ -1,4 +1,5 @@
 import PoseVerif.Model.PoseOps
+import PoseVerif.Model.Spatial
 import PoseVerif.Driver.Masked
 /-! Driver: pose-body operations on the three backends (Float scalars; flat JSON ↔ nested arrays). -/
 namespace PoseVerif.Driver
@@ -50,6 +51,14 @@ def runBodyOps (j : Json) : R Json := do
       | "matmul" => do
         let rows ← (← (← op.getObjVal? "m").getArr?).toList.mapM fun r => do (← r.getArr?).toList.mapM f64OfJson
         pure (some (matmulBody be floatScalar floatIsZero rows b))
+      | "flip" => do pure (some (flipBody floatScalar floatIsZero (← getNat op "axis") b))
+      | "bbox" => do pure (some (bboxBody floatScalar floatIsZero (← getNatArr (← op.getObjVal? "sizes")) b))
+      | "focus" =>
+        match focusBody floatScalar floatIsZero b with
+        | some (b', w, h, d) =>
+          out := out.push (Json.mkObj [("dimensions", Json.arr #[natJ w, natJ h, natJ d])])
+          pure (some b')
+        | none => pure none
       | "flatten" =>
         out := out.push (Json.mkObj [("rows", Json.arr ((flattenBody floatScalar floatIsZero b).toArray.map fun r => Json.arr (r.toArray.map f64J)))])
         pure (some b)
